@@ -210,7 +210,7 @@ fn run_schedule(h: &mut Harness, variant: usize, order: &[usize], sched: &[Vec<u
         problems.push("final-state-not-serial".to_string());
     }
     for c in clients.iter_mut() {
-        c.as_mut().unwrap().close();
+        c.as_mut().unwrap().discard();
     }
     let _ = h.srv.as_ref().unwrap().steps(2);
     problems.sort();
